@@ -66,6 +66,7 @@ fn deserialize_block<R: BufRead + Seek>(
         Ok(arr)
     })()
         .map_err(|e| e.annotate("invalid_transactions"))?;
+    read_len.finish()?;
     match len {
         Len::Len(_) => (),
         Len::Indefinite => match raw.special()? {
